@@ -363,6 +363,8 @@ var c01StmtAlphabet = []string{
 	"mm = {1: 1, 2: 2, 3: 3, 4: 4, 5: 5}; del(mm[5]); mb = mm; mb[1] = v; println(mm, mb)",
 	"md = {1: 1, 1: 2, 1: 3, 1: 4, 1: 5}; me = md; me[1] = v; del(me[1]); println(md, me)",
 	"ma = [1, 2, 3, 4, 5, 6, 7, 8, 9, 10][0:2]; mc = ma; mc[0] = v; println(ma, mc)",
+	// a trailing array argument is spread into the variadic parameters, also when it is a variable of an outer scope
+	"ar = [v, 4]; fv = func(a, ..) { [a, ..] }; println(fv(1, ar), func() { fv(1, ar) }(), func() { max(ar) }())",
 	// element deletion / insertion on a map that lives in an outer scope
 	"w = {\"k\": v, \"j\": 2}", "del(w.k); println(w)", "println(del(w[\"j\"]), w)", "w.z = 3; println(w)", "func dk() { del(w.k); w.y = 1 }; dk(); println(w)",
 	// errors raised while building a literal or an argument list abort the statement
